@@ -88,14 +88,16 @@ Definition sizeof (L : layout) : Z :=
 
 (* ---------------------------------------------------------------- structs.py: Elf_Prop *)
 (* def classify_pr_data(ctx): None unless pr_type is a name; X86_/AARCH64_/RISCV_ prefixes give
-   a fixed key, any other name (pr_type, pr_datasz, elfclass).  The prefix tests are evaluated
-   by the translator on every name of the Enum (gen_prop_key_of_type). *)
+   (prefix label, pr_datasz, 0), any other name (pr_type, pr_datasz, elfclass).  The prefix tests
+   are evaluated by the translator on every name of the Enum (gen_prop_key_of_type: label, the
+   size component if it is a constant, the class component if it is a constant). *)
 Definition classify_pr_data (c : cfg) (t : enum_val) (datasz : Z) : option (string * Z * Z) :=
   match t with
   | Name n =>
       match assoc_s n gen_prop_key_of_type with
-      | Some (lab, true, a, b) => Some (lab, a, b)
-      | Some (lab, false, _, _) => Some (lab, datasz, elfclass c)
+      | Some (lab, a, b) =>
+          Some (lab, match a with Some a' => a' | None => datasz end,
+                     match b with Some b' => b' | None => elfclass c end)
       | None => None
       end
   | _ => None
